@@ -305,6 +305,32 @@ func GenGenesis(t *rapid.T, prof *Profile) GenesisSpec {
 					bclasses = append(bclasses, map[string]interface{}{"basket_id": "3", "class_id": "C10"}, map[string]interface{}{"basket_id": "3", "class_id": "C100"})
 					g.Notes = append(g.Notes, "legacy-exponent-basket{NANO exponent 9, precision 6}")
 				}
+				if len(cts) > 1 {
+					// the allowed list of basket LEG (credit type C) also names a class of another credit type: genesis
+					// validation does not cross-check it, basket Create would have refused it
+					doc["regen.ecocredit.v1.Class"] = mustJSON([]interface{}{3,
+						map[string]interface{}{"key": "1", "id": "C10", "admin": b64(accts[0]), "credit_type_abbrev": "C"},
+						map[string]interface{}{"key": "2", "id": "C100", "admin": b64(accts[1]), "credit_type_abbrev": "C", "metadata": "m"},
+						map[string]interface{}{"key": "3", "id": "BIO01", "admin": b64(accts[2]), "credit_type_abbrev": "BIO"},
+					})
+					doc["regen.ecocredit.v1.ClassIssuer"] = mustJSON([]map[string]interface{}{
+						{"class_key": "1", "issuer": b64(accts[0])}, {"class_key": "1", "issuer": b64(accts[2])},
+						{"class_key": "2", "issuer": b64(accts[0])}, {"class_key": "2", "issuer": b64(accts[1])},
+						{"class_key": "3", "issuer": b64(accts[2])}, {"class_key": "3", "issuer": b64(accts[0])},
+					})
+					doc["regen.ecocredit.v1.ClassSequence"] = mustJSON([]map[string]interface{}{
+						{"credit_type_abbrev": "C", "next_sequence": "101"}, {"credit_type_abbrev": "BIO", "next_sequence": "2"}})
+					doc["regen.ecocredit.v1.Project"] = mustJSON([]interface{}{4,
+						map[string]interface{}{"key": "1", "id": "C10-100", "admin": b64(accts[0]), "class_key": "1", "jurisdiction": "US", "reference_id": "VCS-001"},
+						map[string]interface{}{"key": "2", "id": "C10-1000", "admin": b64(accts[2]), "class_key": "1", "jurisdiction": "KE"},
+						map[string]interface{}{"key": "3", "id": "C100-001", "admin": b64(accts[1]), "class_key": "2", "jurisdiction": "US-WA", "reference_id": "VCS-001"},
+						map[string]interface{}{"key": "4", "id": "BIO01-001", "admin": b64(accts[2]), "class_key": "3", "jurisdiction": "BR"},
+					})
+					doc["regen.ecocredit.v1.ProjectSequence"] = mustJSON([]map[string]interface{}{
+						{"class_key": "1", "next_sequence": "1001"}, {"class_key": "2", "next_sequence": "2"}, {"class_key": "3", "next_sequence": "2"}})
+					bclasses = append(bclasses, map[string]interface{}{"basket_id": "1", "class_id": "BIO01"})
+					g.Notes = append(g.Notes, "basket-lists-class-of-other-credit-type{LEG: BIO01}")
+				}
 				doc["regen.ecocredit.basket.v1.BasketClass"] = mustJSON(bclasses)
 				doc["regen.ecocredit.basket.v1.BasketBalance"] = mustJSON([]map[string]interface{}{
 					{"basket_id": "1", "batch_denom": "C10-100-20200101-20210101-001", "balance": "10.25", "batch_start_date": "2020-01-01T00:00:00Z"},
@@ -334,10 +360,9 @@ func GenGenesis(t *rapid.T, prof *Profile) GenesisSpec {
 		}
 	}
 
-	// a data module that is not empty at genesis: anchors (one from before 1970, one with a hand-assigned one-byte
-	// id), an attestation, two resolvers sharing a URL and a registration
+	// a data module that is not empty at genesis: anchors (one from before 1970, one in 2096), an attestation, two resolvers sharing a URL and a registration
 	if prof.Weights["anchor"] > 0 && draw("g.datagenesis", 4) == 3 {
-		g.Data = genDataGenesis(accts)
+		g.Data = genDataGenesis(accts, nil)
 		g.Notes = append(g.Notes, "data-genesis{3 anchors, 1 attestation, 2 resolvers, 1 registration}")
 	}
 
@@ -368,10 +393,25 @@ func poolHash(i int, ext string) *data.ContentHash {
 	return &data.ContentHash{Raw: &data.ContentHash_Raw{Hash: h, DigestAlgorithm: 1, FileExtension: ext}}
 }
 
-func genDataGenesis(accts []sdk.AccAddress) json.RawMessage {
-	hs, err := hasher.NewHasher()
-	if err != nil {
-		panic(err)
+// genDataGenesis builds a populated data genesis whose compact ids are what the server with hasher hs (nil = the
+// production hasher) would have assigned, in this order (the server finds a data id by probing the hasher's
+// candidates, so rows with other ids could never be anchored again).
+func genDataGenesis(accts []sdk.AccAddress, hs hasher.Hasher) json.RawMessage {
+	if hs == nil {
+		var err error
+		if hs, err = hasher.NewHasher(); err != nil {
+			panic(err)
+		}
+	}
+	used := map[string]bool{}
+	assign := func(iri string) []byte {
+		for n := 0; ; n++ {
+			id := hs.CreateID([]byte(iri), n)
+			if !used[string(id)] {
+				used[string(id)] = true
+				return id
+			}
+		}
 	}
 	iri := func(ch *data.ContentHash) string {
 		s, err := ch.ToIRI()
@@ -381,12 +421,12 @@ func genDataGenesis(accts []sdk.AccAddress) json.RawMessage {
 		return s
 	}
 	i0, i1, i2 := iri(poolHash(0, "")), iri(poolHash(1, "pdf")), iri(poolHash(2, ""))
-	id0, id1, id2 := hs.CreateID([]byte(i0), 0), hs.CreateID([]byte(i1), 0), []byte{0x01}
+	id0, id1, id2 := assign(i0), assign(i1), assign(i2)
 	doc := map[string]interface{}{
 		"regen.data.v1.DataID": []map[string]interface{}{
 			{"id": b64(id0), "iri": i0}, {"id": b64(id1), "iri": i1}, {"id": b64(id2), "iri": i2}},
 		"regen.data.v1.DataAnchor": []map[string]interface{}{
-			{"id": b64(id0), "timestamp": "2020-01-01T00:00:00Z"}, {"id": b64(id1), "timestamp": "1969-12-31T23:59:59.5Z"}, {"id": b64(id2), "timestamp": "2022-06-01T12:00:00Z"}},
+			{"id": b64(id0), "timestamp": "2020-01-01T00:00:00Z"}, {"id": b64(id1), "timestamp": "1969-12-31T23:59:59.5Z"}, {"id": b64(id2), "timestamp": "2096-02-29T12:00:00Z"}}, // after every block time of most histories
 		"regen.data.v1.DataAttestor": []map[string]interface{}{
 			{"id": b64(id0), "attestor": b64(accts[1]), "timestamp": "2021-03-04T05:06:07Z"}},
 		"regen.data.v1.Resolver": []interface{}{2,
